@@ -58,22 +58,46 @@ OPEN_CLI = [
 # eval_cost
 
 
-UNBOUND = ["inf", "infinity", "Infinity", "nan", "x", "y", "zz", "cost"]
+UNBOUND = ["inf", "infinity", "Infinity", "nan", "x", "y", "zz"]
+
+
+def note_once(res, text):
+    if text not in res.notes:
+        res.notes.append(text)
+
+
+def internal(res, mod, name):
+    """A private helper of the CLI modules.  Only `add_args` and the function argparse dispatches to are the
+    public surface: a renamed / inlined helper costs a stream of the glue tie, never an alarm."""
+    f = getattr(mod, name, None)
+    if f is None:
+        note_once(res, f"C12 glue: {mod.__name__}.{name} not found (renamed or inlined helper): that stream of the "
+                       "glue tie is skipped; the process-level relations of C12 keep deciding")
+    return f
 
 
 def check_unbound(res, model_names):
-    bad = [n for n in model_names
-           if n in vars(cli_reconcile) or hasattr(builtins, n) or keyword.iskeyword(n)]
-    if bad or sorted(model_names) != sorted(UNBOUND):
-        res.tie_broken("c12c: names the model takes for unbound in cli/reconcile.py", {"names": model_names},
-                       model_names, bad)
+    """The names the model takes for unbound must raise NameError WHEN EVALUATED BY eval_cost (its own locals
+    count: the parameter of `def eval_cost(cost)` is bound).  The model's list against the harness's is a
+    model-side tie; what the code binds is a fact about the code, recorded as a note."""
+    if sorted(model_names) != sorted(UNBOUND):
+        res.tie_broken("c12c: names the model takes for unbound vs the harness's list", {"names": model_names},
+                       model_names, UNBOUND)
+    bound = [n for n in model_names if "err" not in py_eval_cost(n) or keyword.iskeyword(n)]
+    if bound:
+        note_once(res, f"C12 glue: names {bound} are bound where eval_cost evaluates (the model answers NameError "
+                       "for them; expressions using them are not compared)")
+    return set(bound)
+
+
+_EVAL = [None]
 
 
 def py_eval_cost(expr):
     with warnings.catch_warnings():
         warnings.simplefilter("ignore")
         try:
-            v = cli_reconcile.eval_cost(expr)
+            v = _EVAL[0](expr)
         except Exception as e:  # noqa
             return {"err": type(e).__name__}
     if isinstance(v, bool) or not isinstance(v, (int, float)):
@@ -110,7 +134,7 @@ def rand_expr(rng, depth):
 
 
 SOUP = ["0", "1", "2", "7", "01", "10", "+", "-", "*", "//", "(", ")", "float('inf')", " ", "zz", "inf", "x",
-        "/", "**", "1.5", "abs", "json", "'a'", ",", "float", "float(", "'inf'", "nan", "1_0", "0x1", "\t", "=",
+        "cost", "/", "**", "1.5", "abs", "json", "'a'", ",", "float", "float(", "'inf'", "nan", "1_0", "0x1", "\t", "=",
         "1e3", "None", "not", "float('nan')", "float('-inf')"]
 
 
@@ -136,6 +160,7 @@ FIXED_EXPRS = [
     "0x10", "1e3", "1.5", "1 +\t2", "10 - 3 - 2", "100 // 7 // 2", "2 * (3 + 4) // 5 - -1", "- 2 // 3",
     "((1))", "1 + 01", "( )", "(())", "+", "-", "(-)", "1 // // 2", "float", "float()", "float('inf'",
     "x y", "1 zz", "zz 1", "(1) 2", "1 (", ") (", "0 * zz", "zz * (1//0)", "(1//0) * zz",
+    "cost", "cost * 2", "y", "infinity", "nan", "Infinity",
 ]
 
 
@@ -153,10 +178,23 @@ def eval_stream(ctx):
                 e = mutate(rng, e)
             yield e
         else:
-            yield "".join(rng.choice(SOUP[:19]) for _ in range(rng.randint(1, 8)))
+            yield "".join(rng.choice(SOUP[:20]) for _ in range(rng.randint(1, 8)))
+
+
+def soft_mismatch(res, what, m, py):
+    """The model answers with an exception for an expression that is no cost at all.  C12 speaks of cost
+    options that ARE costs; how an invalid expression is refused (which exception class, an argparse error
+    and status 2, or a value because the name is bound after all) is not part of it: counted, never a tie."""
+    res.dist[f"{what}/invalid expression refused differently (note): model {m.get('err')}, code "
+             f"{py.get('err') or ('exit ' + str(py['exit']) if 'exit' in py else 'a value')}"] += 1
+    note_once(res, f"C12 glue: {what}: some invalid cost expression is refused by the code in another way than by "
+                   "the model (exception class / argparse error); see the distribution")
 
 
 def check_eval(ctx, res):
+    _EVAL[0] = internal(res, cli_reconcile, "eval_cost")
+    if _EVAL[0] is None:
+        return
     exprs = list(eval_stream(ctx))
     outs = ctx.driver.parallel([{"op": "c12c_eval_cost", "expr": e} for e in exprs])
     for e, m in zip(exprs, outs):
@@ -168,7 +206,10 @@ def check_eval(ctx, res):
             continue
         py = py_eval_cost(e)
         if m != py:
-            res.tie_broken("eval_cost: value or exception class", case, m, py)
+            if "err" in m:
+                soft_mismatch(res, "eval_cost", m, py)
+            else:
+                res.tie_broken("eval_cost: value of a cost expression", case, m, py)
             continue
         res.dist["eval_cost/" + (m["err"] if "err" in m else
                                  "int" if isinstance(m["val"], int) else m["val"])] += 1
@@ -259,7 +300,8 @@ def check_cost_args(ctx, res, tmp):
         case = {"kind": "cost_args", "opts": opts}
         res.case(case, nontrivial=len(opts) >= 1)
         if "ok" in m and not checked:
-            check_unbound(res, m["unbound"])
+            if _EVAL[0] is not None:
+                check_unbound(res, m["unbound"])
             checked = True
         if m.get("outside"):
             res.dist["cost_args/outside (not compared)"] += 1
@@ -267,7 +309,12 @@ def check_cost_args(ctx, res, tmp):
         py = py_cost_args(opts, inp)
         mm = {k: v for k, v in m.items() if k != "unbound"}
         if mm != py:
-            res.tie_broken("cost options: args.cost_* in the order of cost_events / exception class", case, mm, py)
+            if "err" in mm and "ok" not in py:
+                soft_mismatch(res, "cost_args", mm, py)
+            elif "ok" in mm and "ok" in py and sorted(map(json.dumps, mm["ok"])) == sorted(map(json.dumps, py["ok"])):
+                res.dist["cost_args/ok (cost_events listed in another order: note)"] += 1
+            else:
+                res.tie_broken("cost options: args.cost_* per event", case, mm, py)
             continue
         res.dist["cost_args/" + ("ok" if "ok" in m else m["err"])] += 1
 
@@ -296,6 +343,9 @@ def node_paths(tree):
     return fwd
 
 
+_READ = [None]
+
+
 def py_read_input(doc, opts, tmp):
     inp = os.path.join(tmp, "doc.json")
     with open(inp, "w") as f:
@@ -303,8 +353,8 @@ def py_read_input(doc, opts, tmp):
     args = None
     try:
         args = parse_reconcile_args(opts, inp)
-        x = cli_reconcile.read_input(args)
-    except Exception as e:  # noqa
+        x = _READ[0](args)
+    except (Exception, SystemExit) as e:  # noqa
         return {"err": type(e).__name__}
     finally:
         if args is not None:
@@ -316,7 +366,7 @@ def py_read_input(doc, opts, tmp):
         "onames": [n.name for n in ot.traverse("preorder")],
         "snames": [n.name for n in st.traverse("preorder")],
         "leaf": sorted([of[a], sf[b]] for a, b in x.leaf_object_species.items()),
-        "costs": [[[type(k).__name__, k.name], py_val(v)] for k, v in x.costs.items()],
+        "costs": sorted(([[type(k).__name__, k.name], py_val(v)] for k, v in x.costs.items()), key=json.dumps),
         "syn": None,
     }
     if out["kind"] == "super":
@@ -379,6 +429,9 @@ def check_read_input(ctx, res, tmp):
     from . import c12 as base_mod  # generators of documented-format inputs
 
     rng = ctx.rng
+    _READ[0] = internal(res, cli_reconcile, "read_input")
+    if _READ[0] is None:
+        return
     cases = []
     for _ in range(ctx.budget(120, 1200)):
         gi = base_mod.rand_input(rng)
@@ -396,17 +449,27 @@ def check_read_input(ctx, res, tmp):
         py = py_read_input(c["doc"], c["opts"], tmp)
         if "cost_error" in m:
             if m["cost_error"] != py:
-                res.tie_broken("read_input: exception class of a cost option", c, m, py)
+                if "err" in py:
+                    soft_mismatch(res, "read_input", m["cost_error"], py)
+                else:
+                    res.tie_broken("read_input: an invalid cost option is accepted", c, m, py)
             else:
                 res.dist["read_input/cost option raises " + py["err"]] += 1
             continue
         if "err" in m:
-            if m.get("err") == "illTyped" or m != py:
-                res.tie_broken("read_input: exception class", c, m, py)
+            if m.get("err") != "illTyped" and "err" in py and m != py:
+                # both refuse the malformed document; WHICH exception comes first (two independent look-ups in
+                # either order, an explicit validation) is not part of C12
+                res.dist[f"read_input/{c['what']}: refused, model {m['err']} / code {py['err']} (note)"] += 1
+                note_once(res, "C12 glue: read_input refuses some malformed document with another exception class "
+                               "than the model's (see the distribution)")
+            elif m.get("err") == "illTyped" or m != py:
+                res.tie_broken("read_input: a malformed document is accepted / exception class", c, m, py)
             else:
                 res.dist[f"read_input/{c['what']}: {m['err']}"] += 1
             continue
         mo = dict(m["ok"])
+        mo["costs"] = sorted(mo["costs"], key=json.dumps)     # a dict: compared as a mapping
         mo["leaf"] = sorted(mo["leaf"])
         if mo["syn"] is not None:
             mo["syn"] = sorted(mo["syn"])
@@ -455,11 +518,12 @@ def py_cost(c):
 def py_reconcile(tmp, doc, algo, solutions, costs, shape):
     """Run the real reconcile() with the registered algorithm replaced by a stub of the same signature."""
     real = cli_reconcile.algorithms[algo]
-    seen = {}
+    seen = {"stub": False}
 
     @functools.wraps(real)
     def stub(*a, **k):
         seen["args"] = a
+        seen["stub"] = True
         if shape == "none":
             return None
         if shape == "single":
@@ -496,6 +560,25 @@ def py_reconcile(tmp, doc, algo, solutions, costs, shape):
             "called": "args" in seen, "policy": policy}
 
 
+def split_stderr(lines):
+    """(the printed minimum costs, every other line)."""
+    mins = [ln[len("Minimum cost: "):] for ln in lines if ln.startswith("Minimum cost: ")]
+    return mins, [ln for ln in lines if not ln.startswith("Minimum cost: ")]
+
+
+def registry_patchable(tmp):
+    """The stream replaces `cli_reconcile.algorithms[name]` by a stub.  If the tool does not look the function
+    up there at call time (a table of signatures computed once, another registry), the stub is never called
+    and the stream says nothing about the code."""
+    try:
+        if not isinstance(getattr(cli_reconcile, "algorithms", None), dict):
+            return False
+        py = py_reconcile(tmp, DOC_PLAIN, "thl", "any", [3], "list")
+        return py["called"] and py["stdout"] == "0\n"
+    except Exception:  # noqa
+        return False
+
+
 DOC_PLAIN = {"object_tree": "(x_1,y_1);", "species_tree": "(X,Y);"}
 DOC_SUPER = dict(DOC_PLAIN, leaf_syntenies={"x_1": ["a"], "y_1": ["a"]})
 ALGOS = ["exh", "lca", "thl", "base_spfs", "ext_spfs", "base_uspfs", "superdtl"]
@@ -503,6 +586,11 @@ ALGOS = ["exh", "lca", "thl", "base_spfs", "ext_spfs", "base_uspfs", "superdtl"]
 
 def check_reconcile(ctx, res, tmp):
     rng = ctx.rng
+    if not registry_patchable(tmp):
+        note_once(res, "C12 glue: the registered algorithms cannot be replaced by stubs through "
+                       "cli.reconcile.algorithms (internals differ): the reconcile stream of the glue tie is "
+                       "skipped; status / output / printed cost are decided by the real runs of c12.py")
+        return
     cases = []
     for algo in ALGOS:
         for sup in (False, True):
@@ -533,8 +621,21 @@ def check_reconcile(ctx, res, tmp):
         called = d["call"]["r"] == "run"
         want_policy = d["call"].get("policy") if called else None
         got = {k: py[k] for k in ("status", "stderr", "stdout")}
-        if m != got:
-            res.tie_broken("reconcile: status, stderr lines, output text", case, m, got)
+        m_min, m_other = split_stderr(m["stderr"])
+        g_min, g_other = split_stderr(got["stderr"])
+        if len(set(map(str, costs))) > 1 and len(m_min) == len(g_min) == 1:
+            # results of unequal cost: no algorithm returns such a list (C05); WHICH of them is printed as
+            # "the" minimum (the first, the least) is free, it must be one of them
+            if g_min[0] in [str(py_cost(c)) for c in costs]:
+                g_min = m_min
+        if (m["status"], m["stdout"], m_min) != (got["status"], got["stdout"], g_min):
+            res.tie_broken("reconcile: status, output text, printed minimum cost", case, m, got)
+        elif m_other != g_other and bool(m_other) == bool(g_other):
+            res.dist["reconcile/wording of the warning or error message differs from the model's (note)"] += 1
+        elif m_other != g_other:
+            res.dist["reconcile/a warning or error message is printed on one side only (note)"] += 1
+            note_once(res, "C12 glue: a warning / error message on stderr is printed by the code and not by the "
+                           "model or conversely (C12 decides on status and output only)")
         elif py["called"] != called or py["policy"] != want_policy:
             res.tie_broken("call_algorithm: whether / with which policy the algorithm is called", case,
                            d["call"], {"called": py["called"], "policy": py["policy"]})
@@ -555,7 +656,9 @@ class FakeOut:
         self.data.append(b)
 
 
-def py_draw_output(given, name, tex_ok):
+def py_draw_output(output_fn, given, name, tex_ok):
+    from superrec2.utils import tex as tex_mod
+
     out = FakeOut(name)
     args = types.SimpleNamespace(output_type=given, output=out)
     called = {}
@@ -565,13 +668,19 @@ def py_draw_output(given, name, tex_ok):
         if not tex_ok:
             raise TeXError(1, "boom")
 
-    old = cli_draw.tex_compile
-    cli_draw.tex_compile = fake_tex
+    # the compiler is stubbed wherever the module can reach it: its own name, and the attribute of utils.tex
+    had = hasattr(cli_draw, "tex_compile")
+    old, old_mod = getattr(cli_draw, "tex_compile", None), tex_mod.tex_compile
+    if had:
+        cli_draw.tex_compile = fake_tex
+    tex_mod.tex_compile = fake_tex
     try:
         with contextlib.redirect_stderr(io.StringIO()), contextlib.redirect_stdout(io.StringIO()):
-            status = cli_draw.output(args, "TIKZ")
+            status = output_fn(args, "TIKZ")
     finally:
-        cli_draw.tex_compile = old
+        if had:
+            cli_draw.tex_compile = old
+        tex_mod.tex_compile = old_mod
     kind = "pdf" if called.get("tex") else "tikz" if out.data == [b"TIKZ"] else None
     return {"type": kind, "status": status}
 
@@ -589,6 +698,9 @@ def py_generate_tikz(doc, orientation, tmp):
 
     fake_layout = types.SimpleNamespace(compute=lambda o, p: seen.setdefault("orientation", p.orientation.name))
     fake_tikz = types.SimpleNamespace(render=lambda o, l, p: "T")
+    if not all(hasattr(cli_draw, a) for a in ("SuperReconciliationOutput", "ReconciliationOutput", "layout", "tikz",
+                                              "generate_tikz")):
+        return None
     olds = (cli_draw.SuperReconciliationOutput, cli_draw.ReconciliationOutput, cli_draw.layout, cli_draw.tikz)
     cli_draw.SuperReconciliationOutput = FakeCls("SuperReconciliationOutput")
     cli_draw.ReconciliationOutput = FakeCls("ReconciliationOutput")
@@ -606,6 +718,8 @@ def py_generate_tikz(doc, orientation, tmp):
         cli_draw.generate_tikz(args)
     except SystemExit:
         return {"cls": None, "orientation": None}
+    except Exception:  # noqa   the fakes were not what the function used
+        return None
     finally:
         (cli_draw.SuperReconciliationOutput, cli_draw.ReconciliationOutput, cli_draw.layout, cli_draw.tikz) = olds
         if args is not None:
@@ -618,10 +732,18 @@ def check_draw(ctx, res, tmp):
     cases = [(g, n, t) for g in (None, "tikz", "pdf") for n in names for t in (True, False)]
     outs = ctx.driver.parallel([{"op": "c12c_draw", "syntenies": False, "type": g, "name": n, "tex_ok": t}
                                 for g, n, t in cases])
+    output_fn = internal(res, cli_draw, "output")
     for (g, n, t), m in zip(cases, outs):
+        if output_fn is None:
+            break
         case = {"kind": "draw_output", "type": g, "name": n, "tex_ok": t}
         res.case(case, nontrivial=g is None)
-        py = py_draw_output(g, n, t)
+        try:
+            py = py_draw_output(output_fn, g, n, t)
+        except Exception as e:  # noqa
+            note_once(res, f"C12 glue: draw.output could not be driven with a fake file object ({type(e).__name__}): "
+                           "stream skipped")
+            break
         mm = {"type": m["type"], "status": m["status"]}
         if mm != py:
             res.tie_broken("draw: kind of output and status", case, mm, py)
@@ -636,6 +758,10 @@ def check_draw(ctx, res, tmp):
             case = {"kind": "draw_class", "doc": doc, "orientation": orient}
             res.case(case, nontrivial=True)
             py = py_generate_tikz(doc, orient, tmp)
+            if py is None:
+                note_once(res, "C12 glue: draw.generate_tikz could not be driven with fake classes / layout / tikz "
+                               "(internals differ): stream skipped")
+                return
             want = {"cls": m["cls"] if m["orientation"] is not None else None, "orientation": m["orientation"]}
             if want != {"cls": py.get("cls"), "orientation": py.get("orientation")}:
                 res.tie_broken("draw: class chosen on `syntenies`, orientation", case, want, py)
